@@ -341,6 +341,27 @@ def suite_geos(ctx):
                 ctx.fail("AreaDefinition._get_geostationary_boundary_sides", f"raised {type(e).__name__}: {str(e)[:120]}", inp,
                          tags={"geos": nm, "case": f"{nm}|{k}|raises"}, size=5)
                 continue
+            # the splitting of the (extent within disk polygon) vertices into four sides, against the model (proved to lose no vertex)
+            if ctx.M and nm != "full_disk" and not nm.startswith("goes_full"):
+                try:
+                    from pyresample.geometry import get_geostationary_bounding_box_in_proj_coords
+                    kk = 50 if k is None else max(4, k)
+                    kk += kk % 2
+                    with warnings.catch_warnings():
+                        warnings.simplefilter("ignore")
+                        vx, vy = get_geostationary_bounding_box_in_proj_coords(a, nb_points=kk)
+                        sx_, sy_ = a._get_geostationary_boundary_sides(vertices_per_side=k, coordinates="projection")
+                    verts = list(zip(np.asarray(vx).tolist(), np.asarray(vy).tolist()))
+                    if len(set(verts)) == len(verts) and len(verts) >= 4:
+                        got = [[verts.index((float(px_), float(py_))) if (float(px_), float(py_)) in verts else -1 for px_, py_ in zip(sxi, syi)] for sxi, syi in zip(sx_, sy_)]
+                        rep = ctx.M.ask("geos", len(verts))
+                        want = [[int(t) for t in part.split()] for part in rep.split(" | ")[0].split(" ; ")]
+                        ctx.case("geos-sides", (nm, k, len(verts)), nontrivial=True)
+                        ctx.count(f"geos.sides.n_vertices.{'odd' if len(verts) % 2 else 'even'}")
+                        if got != want:
+                            ctx.disagree("geos-sides", {**inp, "n_vertices": len(verts)}, got, want, "sides of the geostationary boundary (as indices into the polygon's vertices) differ from the model")
+                except ValueError:
+                    pass
             probs = []
             for i in range(4):
                 if not (abs(lon_s[i][-1] - lon_s[(i + 1) % 4][0]) < 1e-9 and abs(lat_s[i][-1] - lat_s[(i + 1) % 4][0]) < 1e-9):
